@@ -55,6 +55,7 @@ class C07(Check):
             "truncation / zero-extension laws, no dependence on data outside the buffer (bytes / bytearray / memoryview slice). "
             "distinct = hash of (type features, fault kind, position class: inside prefix/tag/header/nested/after last field, "
             "outcome); non-trivial = the fault landed inside a multi-byte item or a nested object")
+    RULE = RULE + "; " + 'rounds 7-8: deserialize / serialize run under the host configuration seam (DEBUG logging, warnings as errors)'
     TIERS = {"quick": {"runs": 320, "budget_s": 55}, "thorough": {"runs": 30000, "budget_s": 1200}}
     FAULTS_NOT_INJECTED = ["threads", "real sockets (the channel is an in-process function)"]
 
